@@ -110,8 +110,8 @@ Print Assumptions C04_detector_race_refuted.
 (* --- the ingredients of the statements above are met by a concrete non-trivial history: two
        environments over different detectors, one of them RUNNING, tasks owned by both. *)
 Example C04_nonvacuous :
-  let c0 := mkSpec [0] 0 [mkRole RPlain true 0 false; mkRole RPlain false 0 false] in
-  let c1 := mkSpec [1; 2] 0 [mkRole RPlain true 0 false; mkRole (RHookTask false 3%Z) false 0 false] in
+  let c0 := mkSpec [0] 0 [mkRole RPlain true 0 false; mkRole RPlain false 0 false] [] in
+  let c1 := mkSpec [1; 2] 0 [mkRole RPlain true 0 false; mkRole (RHookTask false 3%Z) false 0 false] [] in
   let ops := [OCreate 0 c0; OCreate 1 c1; OControl 0 2 false; OFail [(0, 1)]] in
   valid_hist st0 ops = true /\ forallb serial_op ops = true /\
   length (s_envs (run st0 ops)) = 2%nat /\ length (s_roster (run st0 ops)) = 4%nat /\
